@@ -59,17 +59,40 @@ def main(argv):
     if sel:
         ids = [i for i in ids if i in sel or i.split('-')[0] in sel]
     jobs = []
+    benign = set()
     for sid in ids:
-        prop = json.load(open(os.path.join(HERE, 'seeded', sid, 'meta.json')))['property']
+        meta = json.load(open(os.path.join(HERE, 'seeded', sid, 'meta.json')))
+        prop = meta['property']
+        if meta.get('expected') == 'exit0':
+            benign.add(sid)
+            jobs.append((sid, built))          # a behaviour-preserving change must leave EVERY check at exit 0
+            continue
         props = built if allp else [p for p in built if p == prop]
         if props:
             jobs.append((sid, props))
     caught = missed = 0
+    false_alarm = benign_ok = benign_undecided = 0
     with ProcessPoolExecutor(max_workers=14) as ex:
         for sid, res, msgs in ex.map(run_one, jobs):
             own = sid.split('-')[0]
             viol = [p for p, c in res.items() if c == 1]
             und = [p for p, c in res.items() if c == 2]
+            if sid in benign:
+                summ = json.load(open(os.path.join(HERE, 'seeded', sid, 'meta.json'))).get('summary', '')[:90]
+                if viol:
+                    false_alarm += 1
+                    print(f"{sid}  FALSE-ALARM  violation={viol} undecided={und}  | {summ}")
+                elif und:
+                    benign_undecided += 1
+                    print(f"{sid}  benign-undecided  undecided={und}  | {summ}")
+                else:
+                    benign_ok += 1
+                    print(f"{sid}  ok (all checks exit 0)  | {summ}")
+                if verbose:
+                    for p, ms in msgs.items():
+                        for m in ms:
+                            print(f"        {p}: {m[:260]}")
+                continue
             hit = bool(viol)
             caught += hit
             missed += (not hit)
@@ -80,6 +103,8 @@ def main(argv):
                     for m in ms:
                         print(f"        {p}: {m[:220]}")
     print(f"caught {caught} / {caught + missed}")
+    if benign:
+        print(f"behaviour-preserving changes: {benign_ok} silent, {benign_undecided} undecided (exit 2), {false_alarm} FALSE ALARM")
 
 
 if __name__ == '__main__':
